@@ -51,6 +51,18 @@
    decidable condition wrappers_ok (C03_wrappers_tie, C03_wrappers_in_model; last section of this file), evaluated on
    the tables of this run with a diagnosis that names the function and the statement.
 
+   Builder b55: the FRAMES of (T) GobEncode / ( *T) GobDecode of the 14 struct types - make the map, call the map
+   function, `if !hasData { return []byte{}, nil }`, buffer, encoder, encode the map; `if len(data) == 0 { return nil }`,
+   gobDecodeObjectAsMap, the unmap function - are generated statement by statement (Gen/GobW.gobw_frames,
+   Gen/GobR.gobr_frames; translator/gobframes.go) and run by the interpreters of Model/GobFrame.v; the hand-written frames
+   of Model/Gob.v (enc_obj, hence genc_k and every struct the whole-value encoder writes; gdec_k) are PROVED equal to
+   the interpreters for every table set satisfying the decidable condition frames_ok (C03_frames_tie), evaluated on the
+   tables of this run with a diagnosis that names the struct, the method and the statement.  The locals gobDecodeItem
+   hands to its attempts (`items := make(ItemCollection, 0)` ..) are generated too (gob_sniff_locals) with the explicit
+   condition sniff_locals_ok under which the sniffing loop started from them is the model's (C03_sniff_locals_tie).
+   The role lists of the leaf struct methods (Source / PublicKey / Endpoints) are run as well, and proved to be the
+   hand-written leaf frames under leaf_frames_ok (C03_leaf_frames_tie).
+
    What remains outside: the byte level of encoding/gob and time.Time.GobEncode (g1-g4), float64 coordinates
    that are not multiples of 1e-6, and values outside wf_gob. *)
 From AP.Model Require Import Prelude Vocab Bytes Layout Pred Dispatch GobTables Gob GobCheck GobNorm GobInst GobWhole.
@@ -537,4 +549,244 @@ Example C03_wrappers_condition_rejects :
   all2 gwr_same [WrDeclare how_make0 ty_bytelist []; WrDecoder []; WrUnrecognised (B "g.Decode(&tt)") []; WrEachDecode n_dec_item how_append []; WrRetNil []] cr_try_items = false /\
   wrappers_first_bad [] gobw_wrappers = Some (fn_try_items, 0) /\
   wrappers_first_bad gobr_wrappers [(fn_enc_items, [WwBuffer []; WwDeclare ty_bytelist []; WwEncode src_local []; WwRetBufferErr []])] = Some (fn_enc_items, 2).
+Proof. vm_compute. repeat split; reflexivity. Qed.
+
+(* ================================================================ b55: the frames of the struct methods
+   (T) GobEncode and ( *T) GobDecode of the 14 vocabulary struct types were known to the model as a list of the CALLS in
+   their bodies (gob_enc_methods / gob_dec_methods; GobCheck.methods_ok compares the names), and given a hand-written
+   meaning: enc_obj = "no bytes when the map function reports no data, else the gob stream of the map", gdec_k = "the
+   value as it is on empty input, else gobDecodeObjectAsMap, then the unmap function".  A list of calls does not see
+   the control flow.  The frames are now generated statement by statement (Gen/GobW.gobw_frames, Gen/GobR.gobr_frames;
+   translator/gobframes.go) and RUN by the interpreters of Model/GobFrame.v; for every table set satisfying the
+   decidable condition frames_ok the interpreters ARE the hand-written frames (Proofs/GobFrameP.v).  The condition is
+   evaluated on the tables of this run, first as a diagnosis: when a frame changes, the error names the struct kind, the
+   method and the index of its first changed statement. *)
+From AP.Model Require Import GobFrame.
+From AP.Proofs Require GobFrameP.
+
+Theorem C03_frames_first_bad_none : frames_first_bad genv gobw_frames gobr_frames = None.
+Proof. vm_compute. reflexivity. Qed.
+
+Theorem C03_frames_condition : frames_ok genv gobw_frames gobr_frames = true.
+Proof. vm_compute. reflexivity. Qed.
+
+(* the diagnosis answers None exactly when the condition holds, for all environments and tables *)
+Theorem C03_frames_diagnosis : forall E FW FR, frames_first_bad E FW FR = None <-> frames_ok E FW FR = true.
+Proof. exact GobFrameP.frames_first_bad_none. Qed.
+
+(* THE TIE, for every environment and every table set satisfying the condition (and, for the read side, a table of
+   gobDecodeObjectAsMap satisfying b50's condition: the frame calls the INTERPRETED wrapper), every struct kind, every
+   field list, every wire:
+   - (T) GobEncode run from its statements is enc_obj - the frame every struct encoder of the model goes through
+     (gobEncodeItem's switch and its Link case, the method route genc_k);
+   - ( *T) GobDecode run from its statements into a zero value is gdec_k; on empty input it leaves any receiver as it is;
+   - the functions the two frames call are written for the receiver's own struct (parameter type read with go/types). *)
+Theorem C03_frames_tie : forall E WR FW FR, frames_ok E FW FR = true -> wrappers_r_ok WR = true ->
+  (forall k pfs, fw_enc_obj E FW k pfs = enc_obj E k pfs) /\
+  (forall k fs, fw_genc_k E FW k fs = genc_k E k fs) /\
+  (forall k w, fr_gdec_k E WR FR k w = gdec_k E k w) /\
+  (forall rec k cur, fr_dec_obj E WR FR rec k cur WEmpty = Ok cur) /\
+  (forall k, (exists es, fn_lookup (enc_fn E k) (ge_wfuncs E) = Some (Some k, es)) /\
+             (exists es, fn_lookup (dec_fn_method E k) (ge_rfuncs E) = Some (Some k, es))).
+Proof.
+  intros E WR FW FR H HR. pose proof H as H0. apply andb_true_iff in H. destruct H as [HFW HFR].
+  split; [exact (GobFrameP.enc_obj_closed E FW HFW)|]. split; [exact (GobFrameP.genc_k_closed E FW HFW)|].
+  split; [exact (GobFrameP.gdec_k_closed E WR FR HFR HR)|]. split; [exact (GobFrameP.dec_obj_empty E WR FR HFR)|].
+  exact (GobFrameP.frames_call_own E FW FR H0).
+Qed.
+
+(* the place of the whole-value encoder where the hand-written frame stands - what gobEncodeItem writes for a struct
+   (a Link by its Go type, everything else through the switch on the type name) - rewritten with the interpreter *)
+Theorem C03_frames_in_model : forall E FW, frames_w_ok E FW = true -> forall k pfs,
+  enc_struct E k pfs =
+  match k with
+  | KLink => fw_enc_obj E FW KLink pfs
+  | _ => match enc_kind E (pfs_type pfs) with
+         | Some k' => if kind_beq k' k then fw_enc_obj E FW k pfs
+                      else match k' with KObject => fw_enc_obj E FW KObject pfs | _ => WEmpty end
+         | None => WEmpty
+         end
+  end.
+Proof.
+  intros E FW H k pfs. rewrite !(GobFrameP.enc_obj_closed E FW H). unfold enc_struct, enc_switch. destruct k; reflexivity.
+Qed.
+
+(* the round trip through T.GobEncode / T.GobDecode with BOTH frames run from their statements: C03_method_roundtrip
+   transported along the tie *)
+Theorem C03_method_roundtrip_through_frames_generic : forall E WR WW FW FR,
+  gob_whole_ok E = true -> wrappers_ok WR WW = true -> frames_ok E FW FR = true ->
+  forall (k : kind) (fs : list (fid * fval)),
+    (forall f v, In (f, v) fs ->
+       match ftype E k f with Some t => shape_ok t v | None => true end = true /\ wf_gob_fval E v = true) ->
+    exists out, fr_gdec_k E WR FR k (fw_genc_k E FW k fs) = Ok out /\
+                norm_fields (ge_layout E) (ge_layout_endpoints E) k out = norm_fields (ge_layout E) (ge_layout_endpoints E) k fs.
+Proof. exact GobFrameP.method_roundtrip_frames. Qed.
+
+Theorem C03_method_roundtrip_through_frames :
+  forall (k : kind) (fs : list (fid * fval)),
+    (forall f v, In (f, v) fs ->
+       match ftype genv k f with Some t => shape_ok t v | None => true end = true /\ wf_gob_fval genv v = true) ->
+    exists out, fr_gdec_k genv gobr_wrappers gobr_frames k (fw_genc_k genv gobw_frames k fs) = Ok out /\
+                norm_fields layout_of layout_endpoints k out = norm_fields layout_of layout_endpoints k fs.
+Proof.
+  exact (GobFrameP.method_roundtrip_frames genv gobr_wrappers gobw_wrappers gobw_frames gobr_frames
+           C03_whole_condition C03_wrappers_condition C03_frames_condition).
+Qed.
+
+(* non-vacuity: the interpreters compute on the tables of this run.  A Place with a coordinate and a name goes through
+   both frames; an empty value is written as no bytes and no bytes are read as the empty value; bytes that are not a
+   property map are refused *)
+Definition c03_place_fs : list (fid * fval) :=
+  [(F_Name, FNlv (Some [(B "en", B "x")])); (F_Latitude, FFloat 1500000)].
+Example C03_frames_run :
+  fw_genc_k genv gobw_frames KPlace c03_place_fs = WMap [(B "name", WKvs [(B "en", B "x")]); (B "latitude", WFloat 1500000)] /\
+  fr_gdec_k genv gobr_wrappers gobr_frames KPlace (fw_genc_k genv gobw_frames KPlace c03_place_fs) = Ok c03_place_fs /\
+  fw_genc_k genv gobw_frames KActor [] = WEmpty /\
+  fr_gdec_k genv gobr_wrappers gobr_frames KActor WEmpty = Ok [] /\
+  fr_gdec_k genv gobr_wrappers gobr_frames KActor (WRaw c03_x) = Err /\
+  fr_dec_obj genv gobr_wrappers gobr_frames (gdec genv) KObject [(F_ID, FStr c03_x)] WEmpty = Ok [(F_ID, FStr c03_x)] /\
+  (* the hypothesis of C03_method_roundtrip_through_frames holds of this field list (in boolean form) *)
+  forallb (fun p => match ftype genv KPlace (fst p) with Some t => shape_ok t (snd p) | None => true end && wf_gob_fval genv (snd p))
+          c03_place_fs = true.
+Proof. vm_compute. repeat split; reflexivity. Qed.
+
+(* THE CONDITION REJECTS the tables realistic source changes produce, names the place, and the interpreters give the
+   changed tables their meaning - which is not the hand model's.  In every case below the list of CALLS in the body is
+   what it was unless said otherwise, so GobCheck.methods_ok (the condition before this block) still holds:
+   (1) ( *Actor) GobDecode without `if len(data) == 0 { return nil }` (here the call of len goes too; with
+       `_ = len(data)` kept, or the test turned into `len(data) != 0`, the calls stay): statement 0 of Actor.GobDecode;
+       the changed frame refuses the no bytes (T) GobEncode writes for an empty value, and the flipped test returns at
+       once on every non-empty input, reading nothing;
+   (2) (Tombstone) GobEncode ignoring hasData (the `if !hasData` block dropped): statement 3 of Tombstone.GobEncode;
+       the changed frame writes the gob stream of an empty map for an empty value; with the test flipped every value
+       that holds something is written as no bytes;
+   (3) (Place) GobEncode / ( *Place) GobDecode calling the function of another type, mapObjectProperties /
+       unmapObjectProperties: statement 1 / 3; whether the call lists follow the change (the frame then agrees with
+       Gob.dec_fn_method and it is the kind of the function that is wrong) or not; the changed frames drop the coordinate;
+   (4) NOT rejected: `return nil, nil` instead of `return []byte{}, nil` when nothing was written - the same no bytes for
+       every caller, and the same wire. *)
+Definition c03_place_w : wire := WMap [(B "name", WKvs [(B "en", B "x")]); (B "latitude", WFloat 1500000)].
+Example C03_frames_condition_rejects :
+  (* 1 *)
+  frames_ok genv gobw_frames (fr_drop_empty_return KActor gobr_frames) = false /\
+  frames_first_bad genv gobw_frames (fr_drop_empty_return KActor gobr_frames) = Some (KActor, m_dec, 0) /\
+  fr_gdec_k genv gobr_wrappers (fr_drop_empty_return KActor gobr_frames) KActor WEmpty = Err /\
+  gdec_k genv KActor WEmpty = Ok [] /\
+  frames_first_bad genv gobw_frames (fr_flip_empty_test KActor gobr_frames) = Some (KActor, m_dec, 0) /\
+  fr_gdec_k genv gobr_wrappers (fr_flip_empty_test KActor gobr_frames) KActor (WMap [(B "id", WRaw c03_x)]) = Ok [] /\
+  gdec_k genv KActor (WMap [(B "id", WRaw c03_x)]) = Ok [(F_ID, FStr c03_x)] /\
+  (* 2 *)
+  frames_ok genv (fw_drop_nodata KTombstone gobw_frames) gobr_frames = false /\
+  frames_first_bad genv (fw_drop_nodata KTombstone gobw_frames) gobr_frames = Some (KTombstone, m_enc, 3) /\
+  fw_genc_k genv (fw_drop_nodata KTombstone gobw_frames) KTombstone [] = WMap [] /\
+  genc_k genv KTombstone [] = WEmpty /\
+  frames_first_bad genv (fw_flip_nodata KTombstone gobw_frames) gobr_frames = Some (KTombstone, m_enc, 3) /\
+  fw_genc_k genv (fw_flip_nodata KTombstone gobw_frames) KTombstone [(F_ID, FStr c03_x)] = WEmpty /\
+  genc_k genv KTombstone [(F_ID, FStr c03_x)] = WMap [(B "id", WRaw c03_x)] /\
+  (* 3 *)
+  frames_first_bad genv gobw_frames (fr_call_other KPlace (B "unmapObjectProperties") gobr_frames) = Some (KPlace, m_dec, 3) /\
+  frames_first_bad (env_dec_calls_other genv KPlace (B "unmapObjectProperties")) gobw_frames
+                   (fr_call_other KPlace (B "unmapObjectProperties") gobr_frames) = Some (KPlace, m_dec, 3) /\
+  fr_gdec_k genv gobr_wrappers (fr_call_other KPlace (B "unmapObjectProperties") gobr_frames) KPlace c03_place_w
+    = Ok [(F_Name, FNlv (Some [(B "en", B "x")]))] /\
+  gdec_k genv KPlace c03_place_w = Ok c03_place_fs /\
+  frames_first_bad genv (fw_call_other KPlace (B "mapObjectProperties") gobw_frames) gobr_frames = Some (KPlace, m_enc, 1) /\
+  fw_genc_k genv (fw_call_other KPlace (B "mapObjectProperties") gobw_frames) KPlace c03_place_fs = WMap [(B "name", WKvs [(B "en", B "x")])] /\
+  (* other edits: a frame that encodes before it maps, a missing method, a function handed something else than the receiver *)
+  all2 gfw_same [FwMakeMap []; FwBuffer []; FwEncoder []; FwEncodeMap []; FwCallMap (B "mapObjectProperties") arg_addr []; FwErrRet [];
+                 FwNoDataRet true what_empty []; FwRetBuffer []] (canon_fw (B "mapObjectProperties")) = false /\
+  frames_first_bad genv [] gobr_frames = Some (KObject, m_enc, 0) /\
+  gfr_same (FrRetUnmap (B "unmapObjectProperties") (B "&other") []) (FrRetUnmap (B "unmapObjectProperties") arg_recv []) = false /\
+  (* 4 *)
+  frames_ok genv (fw_nodata_nil KObject gobw_frames) gobr_frames = true /\
+  fw_genc_k genv (fw_nodata_nil KObject gobw_frames) KObject [] = WEmpty.
+Proof. vm_compute. repeat split; reflexivity. Qed.
+
+(* ================================================================ b55: the locals of gobDecodeItem
+   `items := make(ItemCollection, 0)`, `iris := make(IRIs, 0)`, `iri := IRI("")`: the sniffing translator recognised these
+   declarations and consumed them without a trace; Gob.sniff_try starts every attempt from the empty value by hand.  They
+   are now part of the generated tables (Gen/GobR.gob_sniff_locals: function the local is handed to, how it is made, its
+   type), sniff_run_l starts each attempt from the value the declaration makes (make(T, n) holds n zero members), and the
+   condition is explicit: every attempt of the sniffing order is handed a local declared empty, of the type its function
+   decodes into, and no declaration is left over. *)
+Theorem C03_sniff_locals_first_bad_none : sniff_locals_first_bad gob_sniff_locals gob_sniff = None.
+Proof. vm_compute. reflexivity. Qed.
+
+Theorem C03_sniff_locals_condition : sniff_locals_ok gob_sniff_locals gob_sniff = true.
+Proof. vm_compute. reflexivity. Qed.
+
+Theorem C03_sniff_locals_diagnosis : forall SL l, sniff_locals_first_bad SL l = None <-> sniff_locals_ok SL l = true.
+Proof. exact GobFrameP.sniff_locals_first_bad_none. Qed.
+
+(* for every declaration table and sniffing order satisfying the condition, every wrapper table satisfying b50's, every
+   environment, decoder of the nested byte strings and wire: gobDecodeItem's loop with its locals made as declared and
+   its callees run from their tables is the loop of Model/Gob.v the sniffing lemma and the round trip are about *)
+Theorem C03_sniff_locals_tie : forall SL WR E l, sniff_locals_ok SL l = true -> wrappers_r_ok WR = true ->
+  forall rec w, sniff_run_l SL WR E rec l w = sniff_run E rec l w.
+Proof. exact GobFrameP.sniff_locals_closed. Qed.
+
+(* the condition rejects `items := make(ItemCollection, 1)` (the decoded list would start with a nil member), a local of
+   another type, a missing declaration; the interpreter gives the first its meaning *)
+Example C03_sniff_locals_rejects :
+  sniff_locals_ok (sl_edit_how fn_try_items (B "make1") gob_sniff_locals) gob_sniff = false /\
+  sniff_locals_first_bad (sl_edit_how fn_try_items (B "make1") gob_sniff_locals) gob_sniff
+    = Some (fn_try_items, Some (B "make1", ty_items)) /\
+  sniff_run_l (sl_edit_how fn_try_items (B "make1") gob_sniff_locals) gobr_wrappers genv (gdec genv) gob_sniff (WList [WRaw c03_x])
+    = Ok (IItems false (Some [INil; IIri false c03_x])) /\
+  sniff_run_l gob_sniff_locals gobr_wrappers genv (gdec genv) gob_sniff (WList [WRaw c03_x]) = Ok (IItems false (Some [IIri false c03_x])) /\
+  sniff_run genv (gdec genv) gob_sniff (WList [WRaw c03_x]) = Ok (IItems false (Some [IIri false c03_x])) /\
+  sniff_locals_first_bad [] gob_sniff = Some (fn_try_items, None) /\
+  sniff_locals_first_bad ((B "tryDecodeOther", how_make0, ty_items, []) :: gob_sniff_locals) gob_sniff
+    = Some (B "tryDecodeOther", Some (how_make0, ty_items)) /\
+  sniff_locals_ok [(fn_try_items, how_make0, ty_iris, []); (fn_try_iris, how_make0, ty_iris, []); (fn_try_iri, how_conv_empty, ty_iri, [])] gob_sniff = false.
+Proof. vm_compute. repeat split; reflexivity. Qed.
+
+(* ================================================================ b55: the frames of the LEAF struct methods
+   Source / PublicKey / Endpoints GobEncode / GobDecode hold their property statements inline; the frame around them
+   is generated as a list of roles, each the name of one literally matched statement (gobw_leaf / gobr_leaf, second
+   components).  leaf_frames_ok (part of gob_whole_ok) compared the role lists with three expected lists and the model
+   gave those a hand-written meaning (enc_map_gen, rdec_leaf).  The role lists are now RUN (Model/GobFrame.role_w_run /
+   role_r_run: each role is the statement it names, "entries" the inline statements) and for every environment with
+   leaf_frames_ok the run IS the hand-written frame, for all field lists, receivers, decoders and wires. *)
+Theorem C03_leaf_frames_tie : forall E n, leaf_frames_ok E n = true ->
+  (forall pfs, lf_enc E n pfs = enc_map_gen (wenc0 E) (leaf_w E n) pfs) /\
+  (forall rec cur w, lf_dec_leaf E rec n cur w = rdec_leaf E rec n cur w).
+Proof. exact GobFrameP.leaf_frames_closed. Qed.
+
+Theorem C03_leaf_frames_condition :
+  leaf_frames_ok genv n_source = true /\ leaf_frames_ok genv n_pubkey = true /\ leaf_frames_ok genv n_endpoints = true.
+Proof. vm_compute. repeat split; reflexivity. Qed.
+
+(* the places of the model where the hand-written leaf frames stand, on the tables of this run *)
+Theorem C03_leaf_frames_in_model :
+  (forall mt c, wenc_source genv mt c = lf_enc genv n_source (source_pfs mt c)) /\
+  (forall id owner pem, wenc_pubkey genv id owner pem = lf_enc genv n_pubkey (pubkey_pfs id owner pem)) /\
+  (forall e, wenc_endpoints genv e = lf_enc genv n_endpoints e) /\
+  (forall rec n cur w, In n [n_source; n_pubkey; n_endpoints] -> rdec_leaf genv rec n cur w = lf_dec_leaf genv rec n cur w).
+Proof.
+  destruct C03_leaf_frames_condition as (Hs & Hp & He).
+  destruct (GobFrameP.leaf_frames_closed genv n_source Hs) as [Ws Rs].
+  destruct (GobFrameP.leaf_frames_closed genv n_pubkey Hp) as [Wp Rp].
+  destruct (GobFrameP.leaf_frames_closed genv n_endpoints He) as [We Re].
+  split; [intros; unfold wenc_source; rewrite Ws; reflexivity|].
+  split; [intros; unfold wenc_pubkey; rewrite Wp; reflexivity|].
+  split; [intros; unfold wenc_endpoints; rewrite We; reflexivity|].
+  intros rec n cur w [<-|[<-|[<-|[]]]]; symmetry; [apply Rs|apply Rp|apply Re].
+Qed.
+
+(* non-vacuity, and what the run makes of role lists the condition rejects: a leaf GobEncode without its
+   `if !hasData` return writes the stream of an empty map for an empty value; a leaf GobDecode without its empty-input
+   return refuses no bytes *)
+Example C03_leaf_frames_run :
+  lf_enc genv n_source (source_pfs (B "text/plain") (Some [(B "en", B "x")]))
+    = WMap [(B "mediaType", WBytes (B "text/plain")); (B "content", WKvs [(B "en", B "x")])] /\
+  lf_enc genv n_source (source_pfs [] None) = WEmpty /\
+  lf_dec_leaf genv (gdec genv) n_source [] (WMap [(B "mediaType", WBytes (B "text/plain"))]) = Ok [(F_MediaType, FStr (B "text/plain"))] /\
+  lf_dec_leaf genv (gdec genv) n_pubkey [(F_ID, FStr c03_x)] WEmpty = Ok [(F_ID, FStr c03_x)] /\
+  bytes_list_eqb [B "decl"; B "entries"; B "buffer"; B "encoder"; B "encode-mm"; B "return-bytes"] frame_w = false /\
+  role_w_run ([], false) [B "decl"; B "entries"; B "buffer"; B "encoder"; B "encode-mm"; B "return-bytes"] fw_st0 = WMap [] /\
+  role_w_run ([], false) frame_w fw_st0 = WEmpty /\
+  bytes_list_eqb [B "decode-as-map"; B "err-return"; B "entries"; B "return-nil"] frame_r1 = false /\
+  role_r_run (fun _ c => Ok c) WEmpty [B "decode-as-map"; B "err-return"; B "entries"; B "return-nil"] (mk_lf_st None false false []) = Err /\
+  role_r_run (fun _ c => Ok c) WEmpty frame_r1 (mk_lf_st None false false []) = Ok [].
 Proof. vm_compute. repeat split; reflexivity. Qed.
